@@ -557,6 +557,9 @@ def sections(tier):
         sec["3mol-1mode"] = _section([1, 1, 1], q4, {"J": [J1], "mult": [1, 2]})
         sec["limit"] = [{"kind": "agg", "nm": [1], "slots": [{"S": 0.5, "sg": 1, "n0": n0, "n1": n1}]}
                         for (n0, n1) in ((2, 21), (21, 2))]
+        # many declared levels / large Huang-Rhys factors (the upper end of the 20-level table)
+        hi = _slot_alphabet([(1, 1), (3, -1), (6, 1)], [(12, 20), (20, 12), (20, 20), (2, 16)])
+        sec["1mol-many-levels"] = _section([1], hi, {"d0": [0.0]})
     else:
         sec["shiftop"] = [{"kind": "shiftop", "S": S, "sg": sg, "N": N}
                           for N in ("default", 150)
